@@ -98,6 +98,29 @@ SIGS = {
     },
 }
 SIGS['A0'] = dict(SIGS['A'])
+# core sub-language of the latex2text checks (default walker context)
+SIGS['C'] = {
+    'macros': {
+        'textbf': [_sl('m', mode='text')],
+        'emph': [_sl('m')],
+        'frac': [_sl('m'), _sl('m')],
+        'sqrt': [_sl('o', '[', ']'), _sl('m')],
+        'item': [_sl('o', '[', ']')],
+        'label': [_sl('m')],          # known to the walker, unknown to latex2text: discarded with its argument
+    },
+    'envs': {
+        'itemize': dict(sig=[_sl('o', '[', ']')], body=None),
+        'equation': dict(sig=[], body='math'),
+        'foo': dict(sig=[], body=None),
+    },
+    'venvs': {},
+    'specials': ['~', '--', '---', '``', "''", '&'],
+    'syms': ['alpha', 'o', 'ss', '&'],
+    'unknown': [],
+    'cs_args': ['alpha'],
+    'verb': False,
+    'accents': ["'", '^', 'c'],
+}
 
 DEVIATIONS = [' ', '\n', '%c\n']
 
@@ -258,6 +281,15 @@ def _check_lexical(d):
                 d.valid = False
                 d.why_invalid = 'fused dash specials'
                 return
+    for m in re.finditer(r"'+", text):
+        if d.ctx == 'C' and len(m.group(0)) not in (1, 2) and not _inside_in(d, m.start()):
+            d.valid = False
+            d.why_invalid = 'fused quote specials'
+            return
+        if d.ctx == 'C' and len(m.group(0)) == 2 and text[m.start() - 1:m.start()] == '\\':
+            d.valid = False       # \'' : accent followed by a quote, not a closing double quote
+            d.why_invalid = 'accent macro fused with quote'
+            return
     for m in re.finditer(r'`+', text):
         if len(m.group(0)) != 2 and not _inside_in(d, m.start()):
             d.valid = False
@@ -349,6 +381,16 @@ def _render_item(r, it, mode, in_opt):
         if it[1] in sig['unknown']:
             r.uses_unknown = True
         return [('M', it[1], (), mode)]
+    if k == 'Acc':
+        r.emit('\\' + it[1])
+        r.boundary('arg-m')
+        if it[2] == 'tok':
+            r.emit('e')
+            return [('M', it[1], (('c', 'e', mode),), mode)]
+        r.emit('{')
+        r.emit('e')
+        r.emit('}')
+        return [('M', it[1], (('g', '{', '}', (('c', 'e', mode),), mode),), mode)]
     if k == 'Cmt':
         r.emit('%' + it[1], 'tok')
         r.emit('\n', 'in', 'list')
@@ -514,6 +556,9 @@ class Grammar(object):
         for s in sig['syms']:
             if self.ctx == 'A0' or s not in sig['unknown'] or self.ctx == 'A':
                 out.append(('Sym', s))
+        for acc in sig.get('accents', []):
+            out.append(('Acc', acc, 'tok'))
+            out.append(('Acc', acc, 'grp'))
         out.append(('Cmt', 'c'))
         for s in sig['specials']:
             out.append(('Spc', s))
